@@ -94,17 +94,19 @@ PROPS['C19'] = dict(
 SEXPR_FN = ['parser/src/cfg/sexpr.rs <SExpr as Debug>::fmt']
 PROPS['C03'] = dict(
     level='other',
-    level_text=('Minimal scope. Kani (CBMC) harnesses on the real parser crate for the diagnostics layer only: impl Debug for SExpr '
-                '(bounded: 8 concrete tree shapes up to 2 levels, incl. the empty list) and Position::new / Span::new / Span::cover '
-                '(complete over all usize positions of one file). Lexer, list builder and every parse_* function are NOT covered '
-                '(measured out of reach of both verifiers), so totality of parsing itself is not decided.'),
-    level_note=('Decides one clause of the statement ("rendering the diagnostic does not crash", s-expression part) and the span arithmetic; '
-                'nothing else. Trusted: rustc, Kani 0.68 + CBMC 6.11, one-line-patched backtrace crate so the parser crate compiles under Kani.'),
-    technique='contract harnesses (Kani/CBMC) on the real crate: postconditions asserted for symbolic positions (complete) and for a fixed set of tree shapes (bounded)',
-    design_ref='DESIGN.md section 4, C03',
-    explanation=('Debug for SExpr: no panic, balanced parentheses, one pair per list, single-space separation, exact length, for the listed tree shapes. '
+    level_text=('Small scope. (1) Verus, unbounded: the s-expression LIST BUILDER parse_with (text cut from parser/src/cfg/sexpr.rs, up to its final collect) never panics for ANY token stream - '
+                'any length, any nesting, balanced or not: its three `.expect(..)` and the file-name assert inside Span::cover cannot fire (loop invariant: a placeholder frame at the bottom, '
+                'every other frame carries the span of a `(` of this file). (2) Kani (CBMC) harnesses on the real parser crate for the diagnostics layer: impl Debug for SExpr '
+                '(bounded: 8 concrete tree shapes up to 2 levels, incl. the empty list), Position::new / Span::new / Span::cover (complete over all usize positions of one file), is_start (all 256 bytes). '
+                'The lexer and every parse_* function are NOT covered, so totality of parsing as a whole is not decided.'),
+    level_note=('Decides: the list builder cannot panic; "rendering the diagnostic does not crash" (s-expression part); span arithmetic. Nothing else. '
+                'Trusted: rustc, Verus + Z3, Kani 0.68 + CBMC 6.11, one-line-patched backtrace crate so the parser crate compiles under Kani. Termination of the builder loop is not claimed (token iterator opaque).'),
+    technique='Verus contract on the extracted list builder (loop invariant over the explicit stack; expect / assert sites as obligations) + contract harnesses (Kani/CBMC) on the real crate for the diagnostics layer',
+    design_ref='DESIGN.md section 4, C03; 9.1b',
+    explanation=('parse_with_builder (fragment of parse_with): stack_ok(stack, file) is a loop invariant; `stack.pop().expect("placeholder unpopped")` x2, `stack.last_mut().expect("not empty")` x2 (rewritten to a helper whose precondition is the non-emptiness, R27) and Span::cover\'s same-file assert are proved unreachable. '
+                 'Debug for SExpr: no panic, balanced parentheses, one pair per list, single-space separation, exact length, for the listed tree shapes. '
                  'Span::cover: smallest covering span, internal asserts never fire for positions of one file.'),
-    verus=[],
+    verus=[dict(unit='sexpr')],
     kani=[
         H('parser', 'cfg::sexpr', 'c03_b_debug_shape_empty', kind='bounded', bound='tree ()', functions=SEXPR_FN),
         H('parser', 'cfg::sexpr', 'c03_b_debug_shape_a', kind='bounded', bound='tree (a)', functions=SEXPR_FN),
@@ -122,7 +124,8 @@ PROPS['C03'] = dict(
         H('parser', 'cfg::sexpr', 'c03_k_lexer_delimiters_ascii', kind='complete', covers='all 256 byte values', functions=['parser/src/cfg/sexpr.rs is_start']),
     ],
     assumptions=[
-        'NOT decided: totality and termination of the lexer, the list builder, every parse_* function, includes, templates, defvar recursion, miette rendering',
+        'NOT decided: totality and termination of the lexer, every parse_* function, includes, templates, defvar recursion, miette rendering; termination of the list builder',
+        'unit sexpr: the token stream is arbitrary except that every token span names the file being parsed (assumed of the lexer, which is created for one file); Span / ParseError are opaque; rewrites R27 (`stack.last_mut().expect(..).t.push(e)` -> helper with the expect as precondition), R28 (`t.map_err(closure)?` -> helper), R29 (`s[span.clone()].to_string()` -> helper); the tail of parse_with (`exprs.into_iter().map(closure).collect::<Result<_>>()?`: "everything must be in a list") is outside',
         'symbolic tree shapes exhaust CBMC memory through core::fmt (measured: 15-20 min, then failure); the Debug claim is for the listed shapes only',
         'positions handed to Span::new / cover come from one file (offsets and line numbers ordered alike)',
     ],
@@ -314,7 +317,7 @@ PROPS['C02'] = dict(
     technique='contract-based: Verus (overflow/bounds/unwrap/assert sites as obligations) + Kani default checks on the harnesses of C03 C05 C06 C09 C10 C11 C17',
     design_ref='DESIGN.md section 4, C02',
     explanation='union of panic-freedom obligations of every function under contract; the quick tier leaves out only the harnesses that are thorough-tier in their own property and the full-domain key table harness',
-    verus=[dict(unit='dynmacro', only=DYN_FUNCS), dict(unit='switch'), dict(unit='oneshot'), dict(unit='waiting'), dict(unit='ticks'), dict(unit='repeat'), dict(unit='seqs'), dict(unit='layers')],
+    verus=[dict(unit='dynmacro', only=DYN_FUNCS), dict(unit='switch'), dict(unit='oneshot'), dict(unit='waiting'), dict(unit='ticks'), dict(unit='repeat'), dict(unit='seqs'), dict(unit='layers'), dict(unit='sexpr'), dict(unit='reload')],
     kani=_c02_kani(),
     assumptions=[
         'NOT covered: Layout::{tick, do_action, event} outside the fragments named above, resolve_coord, process_sequences, ChordsV2::process_presses, every Kanata method except handle_repeat_actual and handle_scrolling (handle_move_mouse uses f64; tick_sequence_state returns a &mut from a getter), the parser',
